@@ -51,7 +51,7 @@ Proof.
   intros Hp. induction st as [|st IH]; intros cur acc v rest H; [discriminate|].
   destruct cur as [|c cur']; [discriminate|]. rewrite dict_loop_cons in H.
   destruct (isb 101 c).
-  - inversion H; subst. lia.
+  - inversion H; subst. cbn [length]. lia.
   - destruct (dec1 (c :: cur')) as [[k cur2]|e] eqn:E; [|discriminate].
     destruct (dec1 cur2) as [[x cur3]|e] eqn:E2; [|discriminate].
     destruct (hashable k); [|discriminate].
